@@ -536,7 +536,11 @@ CHECKS["C16"] = dict(
           'the main thread; (2) ThreadSanitizer build of library and harness: any data-race report is a violation. Non-trivial = '
           'at least two threads, and one shared image used by at least two of them.'),
     jobs=[dict(harness="threads", prop="threads", cases=T(1500, 20000), procs=T(4, 6), schedule_dependent=True),
-          dict(harness="threads_tsan", prop="threads", cases=T(500, 6000), procs=T(8, 10), schedule_dependent=True)],
+          dict(harness="threads_tsan", prop="threads", cases=T(500, 6000), procs=T(8, 10), schedule_dependent=True),
+          # cold start: each case in a forked child of a process that never draws, so that the very first drawing calls are
+          # concurrent (implementation chain / CPU detection set up before or safely)
+          dict(harness="threads_tsan", prop="coldstart", cases=T(150, 2500), procs=T(3, 4), schedule_dependent=True),
+          dict(harness="threads", prop="coldstart", cases=T(400, 6000), procs=T(2, 3), schedule_dependent=True)],
     floor=T(2000, 60000), nt_floor=T(500, 10000),
     assumptions=["schedules are the operating system's, not enumerated: the digest oracle sees a race only when an interleaving that corrupts a result occurs in one of the repetitions; the ThreadSanitizer oracle is schedule-insensitive (happens-before) but needs both accesses to be executed by the workload",
                  "the first use of every shared image is made on the main thread before the threads start (the precondition in the statement)",
